@@ -255,6 +255,44 @@ theorem unknown_keys_harmless (R : Rules κ δ γ) (cap : Nat) (c₁ c₂ : Cfg 
   rw [lint_fresh_spec, lint_fresh_spec]
   exact lintSpec_congr R d h
 
+/-- membership in the output of one rule map -/
+theorem mem_runEnabled {α : Type} (c : Cfg κ) (x : α) (rs : List (κ × (α → List PLint))) (l : PLint) :
+    l ∈ runEnabled c x rs ↔ ∃ p ∈ rs, isEnabled c p.1 = true ∧ l ∈ p.2 x := by
+  rw [runEnabled_eq_flatMap]
+  simp only [List.mem_flatMap, List.mem_filter]
+  constructor
+  · rintro ⟨p, ⟨hp, he⟩, hl⟩; exact ⟨p, hp, he, hl⟩
+  · rintro ⟨p, hp, he, hl⟩; exact ⟨p, ⟨hp, he⟩, hl⟩
+
+/-- **Exactly the combination**, as a set and without any assumption on rule names (so it covers the
+curated group with its shared name `Intact`): a lint is produced under configuration `c` iff some
+rule enabled in `c` produces it when it is the only rule switched on — on the WHOLE document `d`.
+(`lint_is_combination` adds the order.) -/
+theorem mem_lint_iff (R : Rules κ δ γ) (cap : Nat) (c : Cfg κ) (d : Doc δ γ) (l : PLint) :
+    l ∈ (lint R cap [] c d).1 ↔ ∃ r, isEnabled c r = true ∧ l ∈ (lint R cap [] (only r) d).1 := by
+  simp only [lint_fresh_spec]
+  unfold lintSpec chunkSpec compute
+  simp only [List.mem_append, List.mem_flatMap, List.mem_map, mem_runEnabled]
+  constructor
+  · rintro (⟨p, hp, he, hl⟩ | ⟨ch, hch, l0, ⟨p, hp, he, hl⟩, rfl⟩)
+    · exact ⟨p.1, he, Or.inl ⟨p, hp, by simp [isEnabled_only], hl⟩⟩
+    · exact ⟨p.1, he, Or.inr ⟨ch, hch, l0, ⟨p, hp, by simp [isEnabled_only], hl⟩, rfl⟩⟩
+  · rintro ⟨r, hr, (⟨p, hp, he, hl⟩ | ⟨ch, hch, l0, ⟨p, hp, he, hl⟩, rfl⟩)⟩
+    · have : p.1 = r := by simpa [isEnabled_only] using he
+      exact Or.inl ⟨p, hp, this ▸ hr, hl⟩
+    · have : p.1 = r := by simpa [isEnabled_only] using he
+      exact Or.inr ⟨ch, hch, l0, ⟨p, hp, this ▸ hr, hl⟩, rfl⟩
+
+/-- the per-chunk pieces `lint (only r) ⟨d.whole, [ch]⟩` that `lint_is_combination` interleaves are,
+concatenated, what the pattern rule `r` produces on its own on the whole document -/
+theorem lint_only_chunks (R : Rules κ δ γ) (cap : Nat) (r : κ) (d : Doc δ γ)
+    (h : r ∉ R.doc.map (·.1)) :
+    (lint R cap [] (only r) d).1 =
+      d.chunks.flatMap (fun ch => (lint R cap [] (only r) ⟨d.whole, [ch]⟩).1) := by
+  simp only [lint_fresh_spec]
+  unfold lintSpec chunkSpec
+  simp [runEnabled_only_not_mem r d.whole R.doc h]
+
 /-! ## Non-vacuity and witnesses (keys and chunk contents are `Nat`s, kernel-evaluated) -/
 
 /-- curated `{1:on, 2:off, 3:on}`, user `{1:off, 2:null, 4:on, 5:null}` -/
@@ -302,5 +340,95 @@ def exShared : Rules Nat Nat Nat where
 
 example : (lint exShared 2 [] (only 1) ⟨0, [(0, 5)]⟩).1 = [⟨17, 24, 0⟩, ⟨17, 24, 1⟩] := by decide
 example : ¬ (exShared.doc.map (·.1) ++ exShared.pat.map (·.1)).Nodup := by decide
+
+/-! ### the theorems above applied to these data (joint non-vacuity of their hypotheses) -/
+
+def exCur : Cfg Nat := [(1, some true), (2, some false), (3, some true)]
+def exUser : Cfg Nat := [(1, some false), (2, none), (4, some true), (5, none)]
+def cAll : Cfg Nat := [(1, some true), (2, some true), (3, some true), (4, some true)]
+def cNo2 : Cfg Nat := [(1, some true), (2, some false), (3, some true), (4, some true), (9, some true)]
+
+theorem exUser_wf : Cfg.WF exUser := by unfold Cfg.WF; decide
+theorem exCur_wf : Cfg.WF exCur := by unfold Cfg.WF; decide
+
+/-- non-vacuity of mergeFrom_spec / fillWithCurated_spec: key 1 (explicit off wins over curated on),
+key 2 (`null`: curated off stays), key 3 (absent: curated on), key 4 (unknown, explicit on: kept) -/
+example : get 1 (mergeFrom exCur exUser).1 = some (some false) ∧ (mergeFrom exCur exUser).2 = clear exUser :=
+  mergeFrom_spec exCur exUser exUser_wf 1
+example : get 2 (fillWithCurated exCur exUser) = get 2 exCur := fillWithCurated_spec exCur exUser exUser_wf 2
+example : get 4 (fillWithCurated exCur exUser) = some (some true) := fillWithCurated_spec exCur exUser exUser_wf 4
+
+/-- non-vacuity of explicit_choice_wins -/
+example : isEnabled (fillWithCurated exCur exUser) 1 = false :=
+  explicit_choice_wins exCur exUser exUser_wf 1 false (by decide)
+/-- non-vacuity of unmentioned_takes_default: `null` (key 2) and absent (key 3) -/
+example : get 2 (fillWithCurated exCur exUser) = some (some false) :=
+  unmentioned_takes_default exCur exUser exUser_wf 2 (Or.inr (by decide))
+example : get 3 (fillWithCurated exCur exUser) = some (some true) :=
+  unmentioned_takes_default exCur exUser exUser_wf 3 (Or.inl (by decide))
+
+/-- non-vacuity of wf_preserved -/
+example : (setRule 2 true exCur).WF ∧ (unset 2 exCur).WF ∧ (setIfUnset 2 true exCur).WF ∧ (clear exCur).WF ∧
+    (mergeFrom exCur exUser).1.WF ∧ (fillWithCurated exCur exUser).WF ∧ (Cfg.WF exUser → (mergeFrom exCur exUser).2.WF) :=
+  wf_preserved exCur exUser 2 true exCur_wf
+
+/-- non-vacuity of merge_assoc / fill_idempotent -/
+example : get 1 (mergeFrom (mergeFrom [(1, some true), (6, some true)] exCur).1 exUser).1 =
+    get 1 (mergeFrom [(1, some true), (6, some true)] (mergeFrom exCur exUser).1).1 :=
+  merge_assoc _ exCur exUser exCur_wf exUser_wf 1
+example : get 1 (mergeFrom (mergeFrom [(1, some true), (6, some true)] exCur).1 exUser).1 = some (some false) := by decide
+example : get 4 (fillWithCurated exCur (fillWithCurated exCur exUser)) = get 4 (fillWithCurated exCur exUser) :=
+  fill_idempotent exCur exUser exCur_wf exUser_wf 4
+
+/-- non-vacuity of disabled_contributes_nothing: rule 2 is off in `cNo2` -/
+example : (lint exR 2 [] cNo2 exD).1 = (lint (exR.without 2) 2 [] cNo2 exD).1 :=
+  disabled_contributes_nothing exR 2 cNo2 exD 2 (by decide)
+
+/-- non-vacuity of lint_is_combination: the right-hand side, evaluated -/
+example : (lint exR 2 [] cAll exD).1 =
+    ((exR.doc.map (·.1)).filter (isEnabled cAll)).flatMap
+        (fun r => (lint exR 2 [] (only r) ⟨exD.whole, []⟩).1) ++
+      exD.chunks.flatMap (fun ch =>
+        ((exR.pat.map (·.1)).filter (isEnabled cAll)).flatMap
+          (fun r => (lint exR 2 [] (only r) ⟨exD.whole, [ch]⟩).1)) :=
+  lint_is_combination exR 2 cAll exD (by decide)
+/-- … `lint_is_combination_maps` for the group with a shared name -/
+example : (lint exShared 2 [] (only 1) ⟨0, [(0, 5)]⟩).1 =
+    ((exShared.doc.map (·.1)).filter (isEnabled (only 1))).flatMap
+        (fun r => (lint exShared.docOnly 2 [] (only r) ⟨0, []⟩).1) ++
+      [(0, 5)].flatMap (fun ch =>
+        ((exShared.pat.map (·.1)).filter (isEnabled (only 1))).flatMap
+          (fun r => (lint exShared.patOnly 2 [] (only r) ⟨0, [ch]⟩).1)) :=
+  lint_is_combination_maps exShared 2 (only 1) ⟨0, [(0, 5)]⟩ (by decide) (by decide)
+/-- what each rule of `exR` produces on its own on `exD` -/
+example : (lint exR 2 [] (only 2) exD).1 = [⟨107, 109, 20⟩, ⟨208, 210, 20⟩, ⟨307, 309, 20⟩] ∧
+    (lint exR 2 [] (only 3) exD).1 = [⟨100, 101, 30⟩, ⟨300, 301, 30⟩] ∧
+    (lint exR 2 [] (only 4) exD).1 = [⟨0, 5, 40⟩, ⟨1, 5, 41⟩] := by decide
+
+/-- non-vacuity of toggle_independent: `cAll` and `cNo2` differ on rule 2 and agree on rule 3;
+the attributed lints of rule 3 are the same non-empty list -/
+example : (lintT exR cAll exD).filter (fun p => p.1 = 3) = (lintT exR cNo2 exD).filter (fun p => p.1 = 3) :=
+  (toggle_independent exR 2 cAll cNo2 exD 3 (by decide)).2.2
+example : (lintT exR cNo2 exD).filter (fun p => p.1 = 3) = [(3, ⟨100, 101, 30⟩), (3, ⟨300, 301, 30⟩)] := by decide
+/-- non-vacuity of toggle_independent_setRule -/
+example : isEnabled (setRule 2 false cAll) 3 = isEnabled cAll 3 :=
+  toggle_independent_setRule cAll 2 3 false (by decide)
+/-- non-vacuity of others_unchanged: switching rule 2 off (`setRule`) keeps the lints of rules 1, 3, 4 -/
+example : ((lint (exR.without 2) 2 [] cAll exD).1).Sublist (lint exR 2 [] (setRule 2 false cAll) exD).1 :=
+  others_unchanged exR 2 cAll (setRule 2 false cAll) exD 2
+    (fun k hk => (toggle_independent_setRule cAll 2 k false hk).symm)
+example : (lint (exR.without 2) 2 [] cAll exD).1 =
+    [⟨5, 6, 10⟩, ⟨0, 5, 40⟩, ⟨1, 5, 41⟩, ⟨100, 101, 30⟩, ⟨300, 301, 30⟩] := by decide
+
+/-- non-vacuity of unknown_keys_harmless: unknown keys 9 (on) and 8 (off, `null`) -/
+example : (lint exR 2 [] cAll exD).1 = (lint exR 2 [] (cAll ++ [(9, some true), (8, none)]) exD).1 :=
+  unknown_keys_harmless exR 2 cAll _ exD (by decide)
+
+/-- non-vacuity of lint_only_chunks / mem_lint_iff -/
+example : (lint exR 2 [] (only 3) exD).1 =
+    exD.chunks.flatMap (fun ch => (lint exR 2 [] (only 3) ⟨exD.whole, [ch]⟩).1) :=
+  lint_only_chunks exR 2 3 exD (by decide)
+example : (⟨300, 301, 30⟩ : PLint) ∈ (lint exR 2 [] cNo2 exD).1 :=
+  (mem_lint_iff exR 2 cNo2 exD _).mpr ⟨3, by decide, by decide⟩
 
 end Harper.C11
